@@ -36,6 +36,7 @@ func vfEncodeDatagram(f vfDatagramFields) []byte {
 
 func vfPairOfStates(shapes []vfShape, nc int, mtus []int, split int) (k1, k2 *KCP, em1, em2 *[]vfEmit, z vfShiftT) {
 	em1, em2 = new([]vfEmit), new([]vfEmit)
+	vfIteLifting(true)
 	vfSplitLive = vfSplitSegs | split
 	sh := vfPickShapeFrom(shapes)
 	k1 = vfNewKCP("", vfCfg{mtus: mtus, nc: nc}, em1)
